@@ -188,6 +188,22 @@ Next ==
 
 Spec == Init /\ [][Next]_vars
 
+(* Environment step outside the ideal clock: the wall clock is SET BACK (an NTP step, an operator, a restored VM).  *)
+(* time_ns() is the wall clock, so the code can see it. Not part of Next; the models that include it use            *)
+(* NextSetBack. Every C04 invariant and property below is stated on the times the hits CARRY, so all of them must  *)
+(* survive it: a hit stamped before the last fire is an overtaken hit (refused when there is a period, wanted when *)
+(* there is none), and nothing fires closer than the period to a fire that lies in the clock's future.             *)
+SetBackTo(n) ==
+    /\ n >= 1 /\ n < now
+    /\ now' = n
+    /\ UNCHANGED <<cfg, count, last, pc, ts, cond, fires, hits, outcome>>
+
+SetBack == \E n \in 1..(now - 1) : SetBackTo(n)
+
+NextSetBack == Next \/ SetBack
+
+SpecSetBack == Init /\ [][NextSetBack]_vars
+
 ---------------------------------------------------------------------------
 (* C04 *)
 CountBound == EffCount # -1 => Len(fires) <= (IF EffCount < 0 THEN 0 ELSE EffCount)
